@@ -60,6 +60,9 @@ def make_cfg(desc):
                 for stmt in PrologString(line + "\n"):
                     child += stmt
                 r = rng.random()
+                if desc.get("ground_each"):
+                    _try_ground(eng, child)                      # every intermediate child is grounded (its index serves calls)
+                    continue
                 if r < 0.3:
                     eng.query(child, Term("query", None))      # interleaved query on the child
                 elif r < 0.6:
@@ -89,6 +92,8 @@ def work(item):
     for k, idxs in enumerate(splits):
         a = {"kind": "union", "split": idxs}
         b = {"kind": "extend", "split": idxs, "seed": "%s/%d" % (name, k), "chain": k % 2 == 1}
+        if name.startswith("extidx/"):
+            b["ground_each"] = True
         diffcheck.diff_check(text, make_cfg(a), make_cfg(b), a, b, groups=groups, name=name, st=st)
         a2 = {"kind": "base", "split": idxs}
         b2 = {"kind": "parent_after_extend", "split": idxs, "seed": "%s/%d" % (name, k)}
@@ -118,6 +123,26 @@ def main(tier, seed):
             k = rng.randint(1, min(4, len(cand)))
             splits.append(sorted(rng.sample(cand, k)))
         items.append((name, prog, splits))
+    # clause-index shapes: constant-headed and variable-headed clauses of one predicate added one by one to the
+    # extension, with a grounding of the child (serving a ground call) between the additions
+    from vlib.gen import A, P
+    for i in range(20 if tier == "quick" else 300):
+        r = random.Random("c29x/%s/%s" % (seed, i))
+        prog = [("ad", [("p1", A("s", "1"))], []), ("ad", [("p2", A("s", "2"))], []), ("ad", [("p3", A("t", "1"))], []),
+                ("ad", [("p4", A("t", "2"))], [])]
+        cls = [("rule", A("p", "1"), [P(A("t", "1"))]), ("rule", A("p", "X"), [P(A("s", "X"))])]
+        if r.random() < 0.5:
+            cls.append(("rule", A("p", "X"), [P(A("t", "X")), P(A("s", "2"))]))
+        if r.random() < 0.4:
+            cls.append(("rule", A("p", "2"), [P(A("t", "2"))]))
+        r.shuffle(cls)
+        base_first = r.random() < 0.5
+        prog += cls
+        prog.append(("rule", A("q"), [P(A("p", r.choice(["1", "2"])))]))
+        prog += [("query", A("q")), ("query", A("p", "1"))]
+        idx = [j for j, st_ in enumerate(prog) if st_ in cls]
+        splits = [idx[1:] if base_first else idx, idx[-1:], idx[:1] + idx[-1:]]
+        items.append(("extidx/%d/%d" % (seed, i), prog, splits))
     run.bounds = {"skeletons": len(items), "splits_per_skeleton": ns, "max_added_statements": 4}
     for st in pmap(work, items, item_timeout=120 if tier == "quick" else 900):
         run.merge(st)
